@@ -459,6 +459,10 @@ pub enum Op {
     /// End of finally block - complete any pending return/throw
     FinallyEnd,
 
+    /// Forget the completion a finally block was entered with: emitted in front of a `break`
+    /// or `continue` that leaves the finally block, which replaces that completion
+    DiscardCompletion,
+
     /// Get caught exception value: r[dst] = caught_exception
     GetException { dst: Register },
 
